@@ -193,6 +193,9 @@ def make_type(g, triple, gm, length=LENGTH):
     for _ in range(g['n_duct']):
         ftf = [o - 2 * wall, o] + ftf
         o = o - 2 * wall - 2 * gap
+    if g.get('f_in'):
+        # sibling bundle: prescribed inner flat-to-flat, one (thick) duct
+        ftf = [float(g['f_in']), ftf_outer]
     f_in = ftf[0]
     nr, pd, wf = g['nr'], g['pd'], g['wf']
     D = f_in / (gen.SQ3 * (nr - 1) * pd + 1.0 + 2 * wf * (pd - 1.0)
@@ -223,6 +226,24 @@ def make_type(g, triple, gm, length=LENGTH):
     elif gm == 'lc':
         t['SpacerGrid'] = {'loss_coeff': LC_VALUE, 'axial_positions': grid_z}
     return t
+
+
+def sibling_geometry(g):
+    """A bundle of the SAME pins, wire and wall clearance with one ring
+    less, in a thicker duct: anything remembered per pin geometry alone
+    (and not per bundle) is wrong for the second of the two."""
+    if g['nr'] < 3:
+        return None
+    t = make_type(g, ('CTD', 'CTD', 'CTD'), 'none')
+    D = t['pin_diameter']
+    pd, wf = g['pd'], g['wf']
+    f_in2 = D * (gen.SQ3 * (g['nr'] - 2) * pd + 1.0 + 2 * wf * (pd - 1.0)
+                 + g['slack'])
+    g2 = dict(g, nr=g['nr'] - 1, f_in=f_in2, n_duct=1, g=g['g'] + '_sib')
+    g2.pop('byp', None)
+    g2.pop('lower', None)
+    g2.pop('upper', None)
+    return g2
 
 
 def flow_for(G, g, re):
@@ -843,6 +864,20 @@ def run_case(case):
     res.tag('n_duct=%d' % g['n_duct'])
     full = 0
     hk_state = {}
+    # history: a sibling bundle (same pins, other ring count) is built in
+    # this process first, with the Cheng-Todreas correlations
+    g2 = sibling_geometry(g) if not g.get('f_in') else None
+    if g2 is not None and G['Dw'] > 0:
+        try:
+            G2 = oracle_geometry(g2)
+            for tr in (('CTD', 'CTD', 'CTD'), ('UCTD', 'UCTD', 'UCTD')):
+                with drive.scratch() as d:
+                    drive.build(make_problem(g2, tr, 'none', G2, 3.0e4), d)
+            res.tag('sibling_bundle_built_first')
+        except drive.Rejected:
+            res.tag('sibling_bundle_rejected')
+        except Exception as e:
+            res.tag('sibling_bundle_failed:' + type(e).__name__)
 
     def cap(args, kwargs, result, tok):
         hk_state['reactor'] = args[0]
